@@ -200,3 +200,108 @@ Definition mans_eqb (a b : mans) : bool :=
   | MNums a1 b1, MNums a2 b2 => (a1 =? a2) && (b1 =? b2)
   | _, _ => false
   end.
+
+(* ================================================================ ids inside JSON *)
+(* Subscriber ids travel inside the JSON text as strings (map keys of IPAllocator.Allocated and
+   EpochBitmapState.Subscribers, values of IPToSubscriber, AllocationRecord.SubscriberID).  encoding/json
+   writes a Go string rune by rune (utf8.DecodeRuneInString): every byte that does not start a valid
+   UTF-8 sequence is written as � and read back as EF BF BD.  [json_coerce] is that function on byte
+   strings; it is tied against the real json.Marshal + json.Unmarshal (stream jsoncoerce).
+   [utf8_len b0 tl] = number of continuation bytes of the sequence starting with b0 when tl continues it
+   validly (Unicode table 3-7, what Go's utf8 accepts: no overlongs, no surrogates, <= U+10FFFF). *)
+Definition in_rng (lo hi b : N) : bool := (lo <=? b) && (b <=? hi).
+Definition cont (b : N) : bool := in_rng 128 191 b.
+Definition utf8_len (b0 : N) (tl : bytes) : option nat :=
+  if b0 <? 128 then Some 0%nat
+  else if in_rng 194 223 b0 then
+    match tl with b1 :: _ => if cont b1 then Some 1%nat else None | _ => None end
+  else if in_rng 224 239 b0 then
+    match tl with
+    | b1 :: b2 :: _ =>
+        let lo := if b0 =? 224 then 160 else 128 in
+        let hi := if b0 =? 237 then 159 else 191 in
+        if in_rng lo hi b1 && cont b2 then Some 2%nat else None
+    | _ => None
+    end
+  else if in_rng 240 244 b0 then
+    match tl with
+    | b1 :: b2 :: b3 :: _ =>
+        let lo := if b0 =? 240 then 144 else 128 in
+        let hi := if b0 =? 244 then 143 else 191 in
+        if in_rng lo hi b1 && cont b2 && cont b3 then Some 3%nat else None
+    | _ => None
+    end
+  else None.
+
+Fixpoint coerce_fuel (n : nat) (l : bytes) : bytes :=
+  match n with
+  | O => []
+  | S n' =>
+      match l with
+      | [] => []
+      | b0 :: tl =>
+          match utf8_len b0 tl with
+          | Some k => b0 :: firstn k tl ++ coerce_fuel n' (skipn k tl)
+          | None => 239 :: 191 :: 189 :: coerce_fuel n' tl
+          end
+      end
+  end.
+Definition json_coerce (l : bytes) : bytes := coerce_fuel (length l) l.
+(* valid UTF-8 = left unchanged by the coercion *)
+Definition utf8_valid (l : bytes) : bool := bytes_eqb (json_coerce l) l.
+
+(* the case's table of ids: holder -> id bytes (a holder without an entry has the default id "s<h>",
+   plain ASCII).  [alias] = the holder whose id is what encoding/json makes of h's id.  Tables driven by
+   the harness are closed under the coercion; an id outside the table gets a number no query names. *)
+Fixpoint name_of (names : list (N * bytes)) (h : N) : option bytes :=
+  match names with [] => None | (h', n) :: tl => if h' =? h then Some n else name_of tl h end.
+Definition id_changed (names : list (N * bytes)) (h : N) : bool :=
+  match name_of names h with Some n => negb (utf8_valid n) | None => false end.
+Definition alias (names : list (N * bytes)) (h : N) : N :=
+  match name_of names h with
+  | None => h
+  | Some n => match intern names (json_coerce n) with Some h' => h' | None => 1000 + h end
+  end.
+(* decidable guard of the round-trip theorems: every id held in the allocator is valid UTF-8 *)
+Definition ids_valid (names : list (N * bytes)) (hs : list N) : bool := forallb (fun h => negb (id_changed names h)) hs.
+
+Fixpoint enumN {V} (ord : list N) (m : amap V) : list (N * V) :=
+  match ord with
+  | [] => m
+  | h :: tl => match aget h m with Some v => (h, v) :: enumN tl (adel h m) | None => enumN tl m end
+  end.
+
+(* a JSON object keyed by ids.  All ids valid: the keys are distinct strings and the object is the map
+   (the identity, as before).  Otherwise every key is rewritten and colliding keys collapse: json.Marshal
+   writes a Go map in the byte order of its ORIGINAL keys ([ord], oracle input computed by the harness
+   from the id table) and json.Unmarshal lets the later duplicate overwrite the earlier one. *)
+Definition coerce_keys {V} (names : list (N * bytes)) (ord : list N) (m : amap V) : amap V :=
+  if ids_valid names (map fst m) then m
+  else fold_left (fun acc hv => aset (alias names (fst hv)) (snd hv) acc) (enumN ord m) [].
+Definition coerce_vals (names : list (N * bytes)) (m : amap N) : amap N :=
+  if ids_valid names (map snd m) then m else map (fun p => (fst p, alias names (snd p))) m.
+
+(* marker 1204: the serialised state contains an id that encoding/json changes *)
+Definition mk1204 (names : list (N * bytes)) (hs : list N) : list N := if ids_valid names hs then [] else [1204].
+
+Definition b_roundtrip (names : list (N * bytes)) (ord : list N) (s : bstate) : bstate :=
+  let j := b_marshal s in
+  b_unmarshal {| jb_base := jb_base j; jb_ppl := jb_ppl j; jb_pl := jb_pl j; jb_v6 := jb_v6 j;
+                 jb_bitmap := jb_bitmap j; jb_alloc := coerce_keys names ord (jb_alloc j) |}.
+
+Definition e_roundtrip (names : list (N * bytes)) (ord : list N) (s : estate) : option estate :=
+  let j := e_marshal s in
+  e_unmarshal {| je_base := je_base j; je_netlen := je_netlen j; je_pl := je_pl j; je_epoch := je_epoch j;
+                 je_grace := je_grace j; je_gens := je_gens j;
+                 je_sub := coerce_keys names ord (je_sub j);
+                 je_rev := if ids_valid names (map fst (je_sub j)) then je_rev j else coerce_vals names (je_rev j) |}.
+
+(* the allocation store: records are a JSON array (no keys to collapse in the text); the indexes are
+   rebuilt from the coerced records.  Two records of one pool whose ids collide after the coercion would
+   overwrite each other in the order Go iterates byPool (not reproducible: not driven) *)
+Definition srec_coerce (names : list (N * bytes)) (r : srec) : srec :=
+  {| sr_pool := sr_pool r; sr_sub := alias names (sr_sub r); sr_addr := sr_addr r; sr_pl := sr_pl r;
+     sr_bits := sr_bits r; sr_type := sr_type r; sr_mac := sr_mac r; sr_iaid := sr_iaid r |}.
+Definition m_roundtrip_ids (names : list (N * bytes)) (m : mstate) : mstate :=
+  if ids_valid names (map sr_sub (ms_recs m)) then m_roundtrip m
+  else m_roundtrip {| ms_recs := map (srec_coerce names) (ms_recs m); ms_byip := ms_byip m; ms_totals := ms_totals m |}.
